@@ -4,8 +4,8 @@ cd /verif
 for d in seeded/*/; do
   id=$(basename $d); prop=${id%%-*}
   case "$1" in "") ;; *) case "$prop" in $1) ;; *) continue;; esac;; esac
-  if git -C /repo apply --check $d/patch.diff 2>/dev/null; then
-    git -C /repo apply $d/patch.diff
+  if git -C /repo apply --check /verif/${d}patch.diff 2>/dev/null; then
+    git -C /repo apply /verif/${d}patch.diff
     r=$(timeout 2400 ./check $prop 2>&1 | grep -v KNOWN-FINDING | tail -1)
     git -C /repo checkout -- .
     case "$r" in *FAIL*) echo "$id caught";; *) echo "$id MISSED: $r";; esac
